@@ -1443,3 +1443,102 @@ twin('C16-twin-arms-swapped', 'C16',
        "            log.error(msg)\n"
        "        else:\n"
        "            raise RuntimeError(msg)\n\n    cast_to_int = False\n")])
+
+
+# ----------------------------------------------------------------------
+# C20
+# ----------------------------------------------------------------------
+mutant('C20-log-unsanitised', 'C20',
+       'the raw log is stored in the output',
+       [(P+'cli/from_specified_markers.py',
+         "        output[\"log\"] = output_log\n",
+         "        output[\"log\"] = log.log\n")],
+       'R-MUST/sanitised', "output['log']")
+mutant('C20-sanitise-skipped-for-log', 'C20',
+       'the log copy is never passed through sanitize_paths',
+       [(P+'cli/from_specified_markers.py',
+         "        if config['cloud_safe']:\n"
+         "            output_log = sanitize_paths(output_log)\n", "")],
+       'R-MUST/sanitised', "output['log']")
+mutant('C20-config-raw', 'C20',
+       'the raw configuration is stored in the output',
+       [(P+'cli/from_specified_markers.py',
+         "        output[\"config\"] = safe_config\n",
+         "        output[\"config\"] = config\n")],
+       'R-MUST/sanitised', "output['config']")
+mutant('C20-keep-tmp-dir-key', 'C20',
+       'tmp_dir stays in the recorded configuration',
+       [(P+'cli/from_specified_markers.py',
+         "        safe_config.pop('tmp_dir')\n", "")],
+       'R-MUST/dir-keys-removed', 'tmp_dir')
+mutant('C20-write-log-no-flag', 'C20',
+       'write_log is called without the cloud_safe flag',
+       [(P+'cli/from_specified_markers.py',
+         "            log.write_log(log_path, "
+         "cloud_safe=config['cloud_safe'])\n",
+         "            log.write_log(log_path)\n")],
+       'R-MUST/sanitised', 'write_log')
+mutant('C20-write-log-ignores-flag', 'C20',
+       'write_log writes the raw lines',
+       [(P+'cli/cli_log.py',
+         "            for line in to_write:\n",
+         "            for line in self.log:\n")],
+       'R-MUST/sanitised', 'write_log')
+mutant('C20-sanitiser-skips-lists', 'C20',
+       'sanitize_paths no longer recurses into lists',
+       [(P+'utils/cloud_utils.py',
+         "        new_list = [sanitize_paths(w) for w in input_structure]\n",
+         "        new_list = list(input_structure)\n")],
+       'R-MUST/sanitizer-recursion', 'list')
+mutant('C20-module-absolute', 'C20',
+       'the metadata records the absolute module path',
+       [(P+'utils/output_utils.py',
+         "    metadata['module'] = str(module)\n",
+         "    metadata['module'] = str(pathlib.Path(module_file))\n")],
+       'R-MUST/module-relative')
+mutant('C20-message-paren-path', 'C20',
+       'a new message glues the query path to a bracket',
+       [(P+'cli/from_specified_markers.py',
+         "    log.benchmark(msg=\"validating config and copying data\",\n",
+         "    log.info(f\"cannot read ({query_loc})\")\n"
+         "    log.benchmark(msg=\"validating config and copying data\",\n")],
+       'R-ROLE/path-in-message')
+mutant('C20-message-equals-path', 'C20',
+       'a new error message glues a path to `=`',
+       [(P+'file_tracker/file_tracker.py',
+         "                raise RuntimeError(\n"
+         "                    f\"../{file_str}\\nis not a file\")\n",
+         "                raise RuntimeError(\n"
+         "                    f\"path={file_path}\\nis not a file\")\n")],
+       'R-ROLE/path-in-message')
+mutant('C20-otf-config-raw', 'C20',
+       'the on-the-fly wrapper re-writes the config unsanitised',
+       [(P+'cli/map_to_on_the_fly_markers.py',
+         "                    metadata_config = sanitize_paths("
+         "metadata_config)\n",
+         "                    pass\n")],
+       'R-MUST/sanitised', 'OnTheFlyMapper')
+
+twin('C20-twin-message-name-only', 'C20',
+     'a new message that shows only the file name',
+     [(P+'cli/from_specified_markers.py',
+       "    log.benchmark(msg=\"validating config and copying data\",\n",
+       "    log.info(f\"reading ({query_loc.name})\")\n"
+       "    log.benchmark(msg=\"validating config and copying data\",\n")])
+twin('C20-twin-message-word-path', 'C20',
+     'a new message with the path as its own word',
+     [(P+'cli/from_specified_markers.py',
+       "    log.benchmark(msg=\"validating config and copying data\",\n",
+       "    log.info(f\"reading {query_loc} now\")\n"
+       "    log.benchmark(msg=\"validating config and copying data\",\n")])
+twin('C20-twin-sanitise-inline', 'C20',
+     'the sanitised log is stored without the intermediate flag test '
+     'being first',
+     [(P+'cli/from_specified_markers.py',
+       "        output_log = copy.deepcopy(log.log)\n"
+       "        if config['cloud_safe']:\n"
+       "            output_log = sanitize_paths(output_log)\n",
+       "        if config['cloud_safe']:\n"
+       "            output_log = sanitize_paths(copy.deepcopy(log.log))\n"
+       "        else:\n"
+       "            output_log = copy.deepcopy(log.log)\n")])
